@@ -142,6 +142,7 @@ void install_watchdog(int seconds);   // liveness: a library call that does not 
 std::string classify_addr(const void *p);
 
 // run `call` with the library; returns true if it completed, false if it faulted (g_crash filled)
+extern int g_wd_timeouts;                // calls ended by the watchdog in this process
 extern volatile uint64_t g_call_seq;     // bumped at every library call: the watchdog's notion of progress
 #define GUARDED_CALL(stmt) \
     (sigsetjmp(g_crash_jmp, 1) == 0 ? (++g_call_seq, g_in_lib = 1, (stmt), g_in_lib = 0, true) : (g_in_lib = 0, false))
